@@ -656,7 +656,13 @@ func (ls *Lockset) loadUses(f *ssa.Function, fa *ssa.FieldAddr, v ssa.Value, dep
 				}
 			case *ssa.Return:
 				if isMap || isSlice {
-					ls.record(f, fa, "ESC", z)
+					// the access is the load of the header (under whatever lock is held there); returning the
+					// local copy of the header later, after an explicit unlock, is no further access
+					var at ssa.Instruction = z
+					if li, ok := v.(ssa.Instruction); ok {
+						at = li
+					}
+					ls.record(f, fa, "ESC", at)
 					recorded = true
 				}
 			case *ssa.IndexAddr:
